@@ -31,8 +31,9 @@ RULE = ("seeded random ASTs over + - * / (strings) and + - * / min max consumpti
         ">=2 binary operators and >=1 round compared with a discriminating bound")
 PAIRS = [f"pair:{p}{s}{c}" for p in fm.BINOPS for s in "LR" for c in fm.BINOPS]
 REQUIRED_BUCKETS = ["mode:string", "mode:builder", "mode:api", "mode:api3", "redundant-parens", "same-engine-twice",
-                    "api-min-max", "api-consumption-production", "api-constant", "subexpression-zero"] + PAIRS
-REQUIRED_COUNTERS = ["rounds_compared", "programs_run"]
+                    "api-min-max", "api-consumption-production", "api-constant", "subexpression-zero", "mode:builderx",
+                    "builder-clip-step", "inputs-begin-at-different-times"] + PAIRS
+REQUIRED_COUNTERS = ["rounds_compared", "programs_run", "rounds_with_division_by_zero"]
 ASSUMPTIONS = ["inputs finite; outputs compared per input timestamp; one output per input vector"]
 
 
@@ -43,11 +44,12 @@ def budget(tier: str) -> dict[str, Any]:
 
 
 def gen(rng: Any, tier: str, i: int) -> Any:
-    mode = rng.choice(["string", "string", "builder", "api", "api", "api3"])
+    mode = rng.choice(["string", "string", "builder", "api", "api", "api3", "builderx"])
     api = mode == "api"
     nleaf = rng.randint(1, 4) if mode != "api3" else rng.randint(1, 2)
     # (3-phase engines take no constants and have no unary operators in their typed API: plain + - * / min max trees)
-    ast = fm.gen_ast(rng, rng.randint(1, 6), nleaf, api, [12]) if mode != "api3" else _gen_ast3(rng, rng.randint(1, 4), nleaf)
+    ast = (fm.gen_ast(rng, rng.randint(1, 6), nleaf, api, [12], clip=(mode == "builderx")) if mode != "api3"
+           else _gen_ast3(rng, rng.randint(1, 4), nleaf))
     if ast[0] == "leaf":
         ast = ["bin", rng.choice(fm.BINOPS), ast, ["leaf", rng.randrange(nleaf)]]
     prog: dict[str, Any] = {"mode": mode, "nleaf": nleaf, "ast": ast}
@@ -67,6 +69,15 @@ def gen(rng: Any, tier: str, i: int) -> Any:
             v = [rng.choice(fm.POOL) for _ in range(nleaf)]
         vecs.append(v)
     prog["vectors"] = vecs
+    if mode != "api3" and nleaf >= 2 and rng.random() < 0.35:
+        # inputs that begin at different times: some streams carry 1-3 older samples (often the same number on
+        # several streams), at least one stream begins with round 0
+        extra = rng.randint(1, 3)
+        pre = [rng.choice([0, extra, extra, rng.randint(1, 3)]) for _ in range(nleaf)]
+        used = sorted(set(_leaves(ast, [])))
+        pre[rng.choice(used)] = 0  # (a stream the formula reads: otherwise the older timestamps are legitimate outputs)
+        if any(pre[i] for i in used):
+            prog["prelude"] = pre
     return prog
 
 
@@ -178,8 +189,12 @@ def check(prog: dict[str, Any], rec: Any) -> None:
         rec.bucket("same-engine-twice")
     if _has(ast, lambda a: a[0] == "bin" and a[1] in ("min", "max")):
         rec.bucket("api-min-max")
-    if _has(ast, lambda a: a[0] == "un"):
+    if _has(ast, lambda a: a[0] == "un" and a[1] != "clip"):
         rec.bucket("api-consumption-production")
+    if _has(ast, lambda a: a[0] == "un" and a[1] == "clip"):
+        rec.bucket("builder-clip-step")
+    if prog.get("prelude"):
+        rec.bucket("inputs-begin-at-different-times")
     if _has(ast, lambda a: a[0] == "const"):
         rec.bucket("api-constant")
 
@@ -196,7 +211,16 @@ def check(prog: dict[str, Any], rec: Any) -> None:
     for k, vec in enumerate(prog["vectors"]):
         vals = [F(x) for x in vec]
         if fm.div_by_zero_somewhere(ast, vals):
-            rec.count("rounds_with_division_by_zero(routed to C13)")
+            # a divisor that is exactly zero by construction: the expression has no value, and no number may be
+            # emitted for it (exactly one sample, value None)
+            got = out["rounds"][k] if k < len(out["rounds"]) else []
+            rec.count("rounds_with_division_by_zero")
+            wz = {"program": prog.get("src") or fm_repr(ast), "engine_formula": out.get("formula_str"),
+                  "mode": prog["mode"], "round": k, "inputs": vec, "outputs": [(str(t), v) for t, v in got]}
+            if len(got) != 1 or got[0][0] != fm.T0 + __import__("datetime").timedelta(seconds=k):
+                rec.violation("not-exactly-one-output-for-input-timestamp", wz)
+            elif got[0][1] is not None:
+                rec.violation("number-emitted-for-an-undefined-expression(division-by-zero)", wz)
             continue
         try:
             ref = fm.evb(ast, vals)
